@@ -325,11 +325,17 @@ pub fn run_mode(opts: &Options, prop: &str) -> Report {
             }
             r
         };
-        let mut node = Node::new(&branches[0].chain.consensus, LAST_N, 2000, 1);
+        // C04: one to three honest peers, which learn of a reorganisation one after the other
+        let n_peers: usize = if prop == "C04" { [1usize, 1, 2, 3][(*seed % 4) as usize] } else { 1 };
+        let mut node = Node::new(&branches[0].chain.consensus, LAST_N, 2000, n_peers as u32);
         let peer = PeerIndex::new(1);
+        let mut peer_branch: Vec<usize> = vec![0; n_peers + 1];
+        let mut pending_switch: Vec<usize> = Vec::new();
         let mut now = branches[0].chain.tip().timestamp() + 5000;
         set_now(now);
-        node.connect(peer);
+        for p in 1..=n_peers {
+            node.connect(PeerIndex::new(p));
+        }
         let mut lines = vec!["reset 0".to_string()];
         let mut impls = vec!["ok".to_string()];
         // C03: half of the histories register the scripts from a later block
@@ -363,15 +369,30 @@ pub fn run_mode(opts: &Options, prop: &str) -> Report {
             rep.evaluations += 1;
             match step {
                 Step::Switch(i) => {
+                    // peers that have not followed the previous reorganisation yet do so now
+                    for p in pending_switch.drain(..) {
+                        peer_branch[p] = serving;
+                    }
                     serving = *i;
                     rep.count_op("switch");
                     let chain = &branches[serving].chain;
+                    // the first peer switches and announces at once, the others one per round
+                    peer_branch[1] = serving;
+                    pending_switch = (2..=n_peers).collect();
                     if let Err(e) = catch(|| node.announce(peer, chain)) {
                         aborted = Some(e);
                         break 'steps;
                     }
                 }
                 Step::Run(n) => {
+                    if let Some(p) = pending_switch.pop() {
+                        peer_branch[p] = serving;
+                        let chain = &branches[serving].chain;
+                        if let Err(e) = catch(|| node.announce(PeerIndex::new(p), chain)) {
+                            aborted = Some(e);
+                            break 'steps;
+                        }
+                    }
                     now += 3000;
                     set_now(now);
                     node.im().filter.last_ask_time.write().unwrap().take();
@@ -390,7 +411,7 @@ pub fn run_mode(opts: &Options, prop: &str) -> Report {
                                 break;
                             }
                             budget -= 1;
-                            let chain = &branches[serving].chain;
+                            let chain = &branches[peer_branch.get(p.value()).copied().unwrap_or(serving)].chain;
                             let replies = match server::handle(chain, &sopts, protocol, &data) {
                                 Ok(r) => r,
                                 Err(e) => {
@@ -507,6 +528,22 @@ pub fn run_mode(opts: &Options, prop: &str) -> Report {
         if let Some(msg) = aborted {
             if msg.contains("long fork detected") {
                 rep.count_class("abort:long-fork");
+                // the documented abort is for a fork that shares none of the remembered headers
+                {
+                    let st = &node.i().storage;
+                    let chain = &branches[serving].chain;
+                    let mut remembered: Vec<(u64, Byte32)> = st.get_last_n_headers();
+                    let tip = st.get_tip_header();
+                    remembered.push((tip.raw().number().unpack(), tip.calc_header_hash()));
+                    let shared = remembered.iter().filter(|(n, h)| *n <= chain.tip_number() && &chain.header(*n).hash() == h).map(|(n, _)| *n).max();
+                    if let Some(n) = shared {
+                        rep.violate(
+                            &format!("{}|long-fork-abort|remembered-header-shared", prop),
+                            "the client stops with the long-fork abort although the new branch shares one of its remembered headers",
+                            replay(format!("# remembered block {} is on the new branch; {} peers", n, n_peers)),
+                        );
+                    }
+                }
                 // never adopted piecemeal: tip and index are still those of the old branch
                 if let Some(bi) = branch_of_tip(&node, branches, 0) {
                     if bi == serving && serving != 0 {
@@ -535,8 +572,10 @@ pub fn run_mode(opts: &Options, prop: &str) -> Report {
         for _ in 0..8 {
             grown.append_simple(1);
             let chain_of = |_p: PeerIndex| Some(&grown);
-            if node.i().peers.get_state(&peer).is_none() {
-                node.connect(peer);
+            for p in 1..=n_peers {
+                if node.i().peers.get_state(&PeerIndex::new(p)).is_none() {
+                    node.connect(PeerIndex::new(p));
+                }
             }
             if let Err(e) = catch(|| node.run_to_quiescence(&chain_of, &sopts, &mut now, 3000, 400)) {
                 conv_abort = Some(e);
